@@ -166,6 +166,8 @@ pub enum G {
     SliceWith(Box<G>),
     /// `.map_with(|_, e| span)` (explicit form of to_span)
     SpanWith(Box<G>),
+    /// `a.try_map(|_, span| Ok(Sp(span)))`: the span handed to a try_map closure, on the successful path
+    TryMapSpan(Box<G>),
     /// `.map(|L[o, a, c]| a)` (explicit form of delimited_by / padded_by over group((o, a, c)))
     Mid(Box<G>),
     /// `.lazy()`
@@ -260,7 +262,7 @@ impl G {
             | Not(a) | Rewind(a) | Boxed(a) | ToSlice(a) | ToSpan(a) | Validate(a, _)
             | Labelled(a, _) | MapErr(a) | Memo(a) | Padded(a) | WithState(a) | NestedDelims(a)
             | WithCtx(_, a) | MapCtx(a) | RepCtx(a) | RepCtxMax(a) | TryRepCtx(a) | RepCtxPre(a, _, _) | CtxBare(_, a) | Snd(a) | Fst(a) | MapUnit(a)
-            | MapZ(a) | SliceWith(a) | SpanWith(a) | Mid(a) | Lazy(a) | Ext(a, _) | CustomNest(a) | Rec(a, _) => vec![a],
+            | MapZ(a) | SliceWith(a) | SpanWith(a) | TryMapSpan(a) | Mid(a) | Lazy(a) | Ext(a, _) | CustomNest(a) | Rec(a, _) => vec![a],
             Rep(a, _, s) | IntoIter(a, s) => {
                 let mut v = vec![&**a];
                 v.extend(s.child());
@@ -311,7 +313,7 @@ impl G {
                 Just(_) | JustSeq(..) | Any | OneOf(_) | NoneOf(_) | Select(_) | End | Empty | Custom(..) | JustCtx | AnyRef | SelectRef(_)
                     | Map(_) | To(_) | Ignored(_) | Filter(_) | TryMap(_) | TryMapWith(_) | StGuard(_) | Boxed(_) | ToSlice(_) | ToSpan(_)
                     | Validate(..) | Labelled(..) | MapErr(_) | Memo(_) | Padded(_) | WithState(_) | Snd(_) | Fst(_) | MapUnit(_) | MapZ(_)
-                    | SliceWith(_) | SpanWith(_) | Mid(_) | Then(..) | IgnoreThen(..) | ThenIgnore(..) | PaddedBy(..)
+                    | SliceWith(_) | SpanWith(_) | TryMapSpan(_) | Mid(_) | Then(..) | IgnoreThen(..) | ThenIgnore(..) | PaddedBy(..)
                     | DelimitedBy(..) | Group(..) | WithCtx(..) | ThenWithCtx(..) | IgnoreWithCtx(..) | MapCtx(_)
                     | Recover(..) | SkipUntil(..) | Retry(..)
             )
@@ -372,7 +374,7 @@ pub fn nullable(g: &G) -> bool {
         Map(a) | To(a) | Ignored(a) | Filter(a) | TryMap(a) | TryMapWith(a) | StGuard(a) | Boxed(a)
         | ToSlice(a) | ToSpan(a) | Validate(a, _) | Labelled(a, _) | MapErr(a) | Memo(a) | Padded(a)
         | WithState(a) | WithCtx(_, a) | MapCtx(a) | Snd(a) | Fst(a) | MapUnit(a) | MapZ(a)
-        | SliceWith(a) | SpanWith(a) | Mid(a) | Ext(a, _) | CustomNest(a) | Rec(a, _) => nullable(a),
+        | SliceWith(a) | SpanWith(a) | TryMapSpan(a) | Mid(a) | Ext(a, _) | CustomNest(a) | Rec(a, _) => nullable(a),
         // conservative: a recursive reference may match the empty string
         RecRef(_) | Var => true,
         Let(_, c) => nullable(c),
@@ -637,6 +639,7 @@ impl fmt::Display for G {
             MapZ(a) => write!(f, "map_z({})", a),
             SliceWith(a) => write!(f, "slice_with({})", a),
             SpanWith(a) => write!(f, "span_with({})", a),
+            TryMapSpan(a) => write!(f, "try_map_span({})", a),
             Mid(a) => write!(f, "mid({})", a),
             Lazy(a) => write!(f, "lazy({})", a),
             Ext(a, own) => write!(f, "{}({})", if *own { "ext_own_check" } else { "ext_default_check" }, a),
@@ -943,6 +946,7 @@ impl<'a> P<'a> {
             "map_z" => MapZ(un(self)?),
             "slice_with" => SliceWith(un(self)?),
             "span_with" => SpanWith(un(self)?),
+            "try_map_span" => TryMapSpan(un(self)?),
             "mid" => Mid(un(self)?),
             "lazy" => Lazy(un(self)?),
             "ext_own_check" => Ext(un(self)?, true),
